@@ -3,7 +3,7 @@
 (* Trace specification for the mixture models: posteriors (C01), mixture   *)
 (* weights (C08/C09), initializers (C01).                                  *)
 (***************************************************************************)
-EXTENDS Posterior, Weights, Model, TraceKit
+EXTENDS Posterior, Weights, Model, LinAlg, TraceKit
 VARIABLES l, verdicts
 vars == <<l, verdicts>>
 SL == 64
@@ -135,13 +135,102 @@ TwinNT(r) == /\ r.exc = "" /\ Len(r.A) > 0
              /\ (r.rel = "perm" => \E k \in 1..Len(r.pi) : r.pi[k] # k - 1)
              /\ \E i \in 1..Len(r.A) : Len(r.A[i].t.data) > 1 /\ \E j \in 2..Len(r.A[i].t.data) : r.A[i].t.data[j] # r.A[i].t.data[1]
 
+(* ---- domain : fitted parameters stay inside their documented domain (C09) ---- *)
+\* r.fields : raw fields (name, t, cplx); r.full = affiliation shape; options: r.floor, r.norm, r.kmin, r.kmax (Flt),
+\* r.eps (Flt affiliation clipping), r.wca / r.wca_int / r.integration
+DField(r, name) == Field(r.fields, name)
+DHas(r, name) == name \in Names(r.fields)
+\* rows of the last axis of a flat tensor, as sequences
+LastAxisRows(t) == LET d == t.shape[Len(t.shape)] n == Prod(t.shape) \div d
+                   IN  [i \in 1..n |-> SubSeq(t.data, (i - 1) * d + 1, i * d)]
+\* D x D matrices of the last two axes
+LastMats(t) == LET d == t.shape[Len(t.shape)] n == Prod(t.shape) \div (d * d)
+               IN  [i \in 1..n |-> [a \in 1..d |-> SubSeq(t.data, (i - 1) * d * d + (a - 1) * d + 1, (i - 1) * d * d + a * d)]]
+Unitary(U) == LET d == Len(U) IN \A a, b \in 1..d :
+                 ZClose(ZSum([e \in 1..d |-> ZMul(ZConj(U[e][a]), U[e][b])]), IF a = b THEN <<FOne, FZero>> ELSE ZZero, FOne, 64)
+FMaxSeq(s) == FoldLeft(LAMBDA acc, x : FMax(acc, x), s[1], s)
+WeightDomain(r) ==
+  LET w == DField(r, "weight").t
+      fullT == [shape |-> r.full]
+      R == Len(r.full) K == r.full[R - 1]
+      expW == IF r.integration THEN IntWeightShape(fullT, r.wca) ELSE StdWeightShape(fullT, r.wca, r.wca_int)
+      W == IF r.integration THEN [shape |-> KeepdimsShape(r.full, Axes(fullT, r.wca)), data |-> w.data] ELSE w
+      cax == Len(W.shape) - 2
+      cols == AllIdx(RemIdx(W.shape, cax))
+      tol == FAdd(FNorm(64, -19), FMul(FInt(K), r.eps))
+  IN << <<"weight_shape", w.shape = expW>>,
+        <<"weight_nonneg", \A i \in 1..Len(w.data) : FLe(FZero, w.data[i])>>,
+        <<"weight_sum", w.shape = expW =>
+             \A i \in 1..Len(cols) :
+                LET s == FSum([k \in 1..W.shape[cax + 1] |-> Get(W, InsAt(cols[i], cax, k - 1))])
+                IN  IF W.shape[cax + 1] = 1 THEN TRUE     \* tied over classes by a tuple: mean over classes
+                    ELSE FLe(FAbs(FSub(s, FOne)), tol)>> >>
+CacgDomain(r) ==
+  LET U == DField(r, "cacg_eigenvectors").t lam == DField(r, "cacg_eigenvalues").t
+      rows == LastAxisRows(lam)
+  IN << <<"cacg_unitary", \A i \in 1..Len(LastMats(U)) : Unitary(LastMats(U)[i])>>,
+        <<"cacg_eigenvalue_range", \A i \in 1..Len(rows) :
+             CASE r.norm = "eigenvalue" -> /\ FMaxSeq(rows[i]) = FOne
+                                           /\ \A j \in 1..Len(rows[i]) : FLe(r.floor, rows[i][j]) /\ FLe(rows[i][j], FOne)
+               [] r.norm = "trace" -> /\ \A j \in 1..Len(rows[i]) : FSgn(rows[i][j]) > 0 \/ r.floor = FZero
+                                      /\ FLe(FSum(rows[i]), FAdd(FOne, FAdd(FNorm(64, -19), FMul(FInt(Len(rows[i])), r.floor))))
+                                      /\ FLe(FSub(FOne, FNorm(64, -19)), FSum(rows[i]))
+               \* relative floor; the product is formed in Flt, hence the (1 - 64 2^-19) factor
+               [] OTHER -> \A j \in 1..Len(rows[i]) : FLe(FMul(FMul(r.floor, FMaxSeq(rows[i])), FSub(FOne, FNorm(64, -19))), rows[i][j])>> >>
+WatsonDomain(r) ==
+  LET m == LastAxisRows(DField(r, "watson_mode").t) c == DField(r, "watson_concentration").t.data
+  IN << <<"watson_unit_mode", \A i \in 1..Len(m) : CloseRel(Norm2(m[i]), FOne, 64)>>,
+        <<"watson_concentration_range", \A i \in 1..Len(c) : FLe(FZero, c[i]) /\ FLe(c[i], r.kmax)>> >>
+VmfDomain(r) ==
+  LET m == LastAxisRows(DField(r, "vmf_mean").t) c == DField(r, "vmf_concentration").t.data
+  IN << <<"vmf_unit_mean", \A i \in 1..Len(m) : CloseRel(FSum([j \in 1..Len(m[i]) |-> FSq(m[i][j])]), FOne, 64) \/ r.zero_resultant>>,
+        <<"vmf_concentration_range", \A i \in 1..Len(c) : FLe(r.kmin, c[i]) /\ FLe(c[i], r.kmax)>> >>
+\* Gaussian covariance: symmetric and positive definite by a Cholesky certificate L (lower triangular, positive diagonal)
+GaussDomain(r) ==
+  LET name == CHOOSE n \in Names(r.fields) : n \in {"gaussian_covariance_full", "gaussian_covariance_diagonal", "gaussian_covariance_spherical"}
+      c == DField(r, name).t
+  IN IF name # "gaussian_covariance_full"
+     THEN << <<"gaussian_variance_positive", \A i \in 1..Len(c.data) : FSgn(c.data[i]) > 0>> >>
+     ELSE LET S == LastMats(c) L == LastMats(DField(r, "gaussian_cholesky").t) d == Len(S[1])
+          IN << <<"gaussian_symmetric", \A i \in 1..Len(S) : \A a, b \in 1..d : CloseRel(S[i][a][b], S[i][b][a], 64) \/ (S[i][a][b] = FZero /\ S[i][b][a] = FZero)>>,
+                <<"gaussian_positive_definite", \A i \in 1..Len(S) :
+                     /\ \A a \in 1..d : FSgn(L[i][a][a]) > 0 /\ \A b \in (a + 1)..d : L[i][a][b] = FZero
+                     /\ \A a, b \in 1..d :
+                          LET terms == [e \in 1..d |-> FMul(L[i][a][e], L[i][b][e])]
+                          IN  Close(FSum(terms), S[i][a][b], FAdd(FSumAbs(terms), FAbs(S[i][a][b])), 64)>> >>
+BinghamDomain(r) ==
+  LET rows == LastAxisRows(DField(r, "bingham_eigenvalues").t)
+  IN << <<"bingham_eigenvalue_range", \A i \in 1..Len(rows) :
+             /\ FMaxSeq(rows[i]) = FZero
+             /\ \A j \in 1..Len(rows[i]) : FLe(rows[i][j], FZero) /\ FLe(FNeg(r.kmax), rows[i][j])>> >>
+DomainChecks(r) ==
+  IF r.exc # "" THEN << <<"raises", r.exc_explicit>> >>
+  ELSE IF ~(\A i \in 1..Len(r.fields) : FieldFinite(r.fields[i])) THEN << <<"finite", FALSE>> >>
+  ELSE WeightDomain(r)
+       \o (IF DHas(r, "cacg_eigenvalues") THEN CacgDomain(r) ELSE <<>>)
+       \o (IF DHas(r, "watson_mode") THEN WatsonDomain(r) ELSE <<>>)
+       \o (IF DHas(r, "vmf_mean") THEN VmfDomain(r) ELSE <<>>)
+       \o (IF DHas(r, "gaussian_mean") THEN GaussDomain(r) ELSE <<>>)
+       \o (IF DHas(r, "bingham_eigenvalues") THEN BinghamDomain(r) ELSE <<>>)
+\* non-trivial: a guard was active (an eigenvalue at its floor, a concentration at a bound) or degenerate data
+DomainNT(r) ==
+  /\ r.exc = "" /\ \A i \in 1..Len(r.fields) : FieldFinite(r.fields[i])
+  /\ \/ r.degenerate
+     \/ (DHas(r, "cacg_eigenvalues") /\ \E x \in {DField(r, "cacg_eigenvalues").t.data[i] : i \in 1..Len(DField(r, "cacg_eigenvalues").t.data)} : x = r.floor)
+     \/ (DHas(r, "watson_concentration") /\ \E i \in 1..Len(DField(r, "watson_concentration").t.data) :
+            DField(r, "watson_concentration").t.data[i] \in {FZero, r.kmax})
+     \/ (DHas(r, "vmf_concentration") /\ \E i \in 1..Len(DField(r, "vmf_concentration").t.data) :
+            DField(r, "vmf_concentration").t.data[i] \in {r.kmin, r.kmax})
+
 Checks(r) == CASE r.kind = "bayesx" -> BayesXChecks(r) [] r.kind = "posterior" -> PostChecks(r)
                [] r.kind = "init" -> InitChecks(r) [] r.kind = "flag" -> FlagChecks(r)
                [] r.kind = "weightx" -> WeightXChecks(r)
                [] r.kind = "twin" -> TwinChecks(r)
+               [] r.kind = "domain" -> DomainChecks(r)
 NT(r) == CASE r.kind = "posterior" -> PostNT(r)
            [] r.kind = "bayesx" -> r.exc = "" /\ Len(r.w) >= 2
            [] r.kind = "twin" -> TwinNT(r)
+           [] r.kind = "domain" -> DomainNT(r)
            [] OTHER -> r.exc = ""
 Init == l = 1 /\ verdicts = <<>>
 Next == /\ l <= Len(Trace)
